@@ -184,6 +184,17 @@ func C08(c *Ctx) {
 					}
 				}
 				sort.Strings(bad)
+				// ... and the other way round: nothing in the script world may still hold the emitted value (the
+				// callback handing it back as its result, or keeping it somewhere the script can reach)
+				worldReach := a.Reach(a.Contents(a.World, ""))
+				for _, l := range a.PointsTo(args[1]) {
+					if l.Obj.Kind == pta.KAlloc || l.Obj.Kind == pta.KExternal {
+						if worldReach[l.Obj] {
+							bad = append(bad, "the script world keeps a reference to "+l.Obj.Name+" (the emit callback returns or stores the very value it queued)")
+						}
+					}
+				}
+				sort.Strings(bad)
 				c.R.Check(len(bad) == 0, "C08-R2", fmt.Sprintf("%s:AddEmitted#%d:value", fname(f), n2), c.pos(in),
 					"emitted value is a private copy: "+locsString(a.PointsTo(args[1])), "emitted value stays reachable from the script world or caller data (can change after the emit): "+strings.Join(bad, ", "))
 			})
